@@ -43,7 +43,7 @@ Definition adjust (gs : bool) (s : str) : str :=
   let v := escape_export s in
   if gs then match v with c :: _ => if Byte.eqb c x27 then x27 :: v else v | [] => v end else v.
 
-(* CleanInput(input, "|"):  \r?\n -> " ", then the separator removed *)
+(* CleanInput(input, "|"):  \r\n | \r | \n -> " ", then the separator removed *)
 Fixpoint replace_linebreaks (s : str) : str :=
   match s with
   | [] => []
@@ -51,13 +51,15 @@ Fixpoint replace_linebreaks (s : str) : str :=
     if Byte.eqb c x0a then sp :: replace_linebreaks t
     else if Byte.eqb c x0d then
       match t with
-      | d :: t' => if Byte.eqb d x0a then sp :: replace_linebreaks t' else c :: replace_linebreaks t
-      | [] => [c]
+      | d :: t' => if Byte.eqb d x0a then sp :: replace_linebreaks t' else sp :: replace_linebreaks t
+      | [] => [sp]
       end
     else c :: replace_linebreaks t
   end.
 Definition SEPB : byte := x7c.
 Definition clean_input (s : str) : str := filter (fun c => negb (Byte.eqb c SEPB)) (replace_linebreaks s).
+(* the statement ID as the endpoint hands it to the exporter *)
+Definition endpoint_id (s : str) : str := escape_export (clean_input s).
 
 (* ---------------------------------------------------------------- leaf references *)
 Record lref := mkL { l_f : field; l_p : path; l_n : node; l_a : anc }.
@@ -106,11 +108,13 @@ Definition link_maps (rows : list (list lref)) : list (list (lref * list str)) :
   end.
 
 (* ---------------------------------------------------------------- registry of nested statements *)
-Inductive nkey := KComp (f : field) (p : path) | KPriv (f : field) (p : path) (i j : nat).
+(* identity of a nested statement: a leaf of a complex component tree, or the j-th statement of the i-th private
+   property of the component values carrying suffix [sfx] (the values of one suffix group share their private nodes) *)
+Inductive nkey := KComp (f : field) (p : path) | KPriv (f : field) (sfx : str) (i j : nat).
 Definition nkey_eqb (a b : nkey) : bool :=
   match a, b with
   | KComp f p, KComp g q => field_eqb f g && path_eqb p q
-  | KPriv f p i j, KPriv g q k l => field_eqb f g && path_eqb p q && Nat.eqb i k && Nat.eqb j l
+  | KPriv f p i j, KPriv g q k l => field_eqb f g && beq_str p q && Nat.eqb i k && Nat.eqb j l
   | _, _ => false
   end.
 Record nested := mkN { n_key : nkey; n_id : str; n_node : node }.
@@ -154,7 +158,7 @@ Fixpoint priv_elems (r : row) (reg : list nested) (x : lref) (pv : node) (i j : 
   | v :: t =>
     let name := comp_name (node_meta pv) [] in
     if t_ext C then
-      let '(reg', id) := new_nested_id reg (KPriv (l_f x) (l_p x) i j) v stmt_id in
+      let '(reg', id) := new_nested_id reg (KPriv (l_f x) (get_suffix (node_meta (l_n x)) (l_a x)) i j) v stmt_id in
       priv_elems (append_cell r (name ++ REF_SUFFIX) id) reg' x pv i (S j) t stmt_id
     else
       let* fl := sflat v in
@@ -273,7 +277,7 @@ Fixpoint rows_loop (s : stmt) (anno : option str) (stmt_links : str) (rows : lis
   | xs :: t =>
     let sub := if multi then stmt_id ++ $"." ++ itoa_nat (S ct) else stmt_id in
     let r0 := rset [] K_ID sub in
-    let r1 := match anno with Some a => if t_anno C then rset r0 K_SANNO a else r0 | None => r0 end in
+    let r1 := match anno with Some a => if t_anno C then rset r0 K_SANNO (adjust (t_gs C) a) else r0 | None => r0 end in
     let* x := comps_loop s r1 reg [] xs lms stmt_id in
     let '(r2, reg', lv) := x in
     let r3 := if is_empty lv then r2 else rset r2 K_LLC lv in
@@ -387,7 +391,7 @@ Definition headers : list (str * str) :=
 
 (* printTabularOutput *)
 Definition extra_hdr (po pi : incl) : str :=
-  (match po with INone => [] | _ => K_ORIG ++ [SEPB] end) ++ (match pi with INone => [] | _ => K_IGS ++ [SEPB] end).
+  (match po with IFirst | IAll => K_ORIG ++ [SEPB] | _ => [] end) ++ (match pi with IFirst | IAll => K_IGS ++ [SEPB] | _ => [] end).
 Definition extra_cell (o : incl) (i : nat) (text : str) : str :=
   match o with
   | INone | IOther => []
